@@ -140,8 +140,13 @@ func (c c08Case) blocks() []c08Block {
 // ---------------------------------------------------------------------------------------------
 
 func c08CheckPlan(overlapEnabled bool, blocks []c08Block, plan []string) (shape, sig, msg string) {
+	shape, sig, msg, _, _ = c08CheckPlanSoft(overlapEnabled, blocks, plan)
+	return shape, sig, msg
+}
+
+func c08CheckPlanSoft(overlapEnabled bool, blocks []c08Block, plan []string) (shape, sig, msg, soft, softMsg string) {
 	if len(plan) == 0 {
-		return "empty", "", ""
+		return "empty", "", "", soft, softMsg
 	}
 	byDir := map[string]c08Block{}
 	for _, b := range blocks {
@@ -152,22 +157,22 @@ func c08CheckPlan(overlapEnabled bool, blocks []c08Block, plan []string) (shape,
 	for _, d := range plan {
 		b, ok := byDir[d]
 		if !ok || seen[d] {
-			return "", "plan-unknown-or-duplicate-block", fmt.Sprintf("plan %v names %q which is not a (distinct) input block", plan, d)
+			return "", "plan-unknown-or-duplicate-block", fmt.Sprintf("plan %v names %q which is not a (distinct) input block", plan, d), soft, softMsg
 		}
 		seen[d] = true
 		p = append(p, b)
 	}
 	for _, b := range p[1:] {
 		if b.class != p[0].class {
-			return "", "plan-mixes-block-classes", fmt.Sprintf("plan %v mixes head-view classes", p)
+			return "", "plan-mixes-block-classes", fmt.Sprintf("plan %v mixes head-view classes", p), soft, softMsg
 		}
 	}
 	if len(p) == 1 {
 		b := p[0]
 		if b.tombs > 0 && (b.tombs >= b.series || float64(b.tombs)/float64(b.series+1) > 0.05) {
-			return "tombstones", "", ""
+			return "tombstones", "", "", soft, softMsg
 		}
-		return "", "plan-single-block-without-tombstone-reason", fmt.Sprintf("plan is the single block %v whose tombstones do not warrant a rewrite", b)
+		return "", "plan-single-block-without-tombstone-reason", fmt.Sprintf("plan is the single block %v whose tombstones do not warrant a rewrite", b), soft, softMsg
 	}
 	sort.SliceStable(p, func(i, j int) bool { return p[i].span.min < p[j].span.min })
 	hi := p[0].span.max
@@ -182,19 +187,22 @@ func c08CheckPlan(overlapEnabled bool, blocks []c08Block, plan []string) (shape,
 			hi = b.span.max
 		}
 	}
-	if overlaps > 0 {
-		if !overlapEnabled {
-			return "", "plan-overlapping-blocks-while-disabled", fmt.Sprintf("plan %v contains overlapping blocks although overlapping compaction is disabled", p)
-		}
+	if overlaps > 0 && !overlapEnabled {
+		// Reported, but the exploration goes on: the remaining conditions of shape (b) are still
+		// checked and the plan/compact loop continues (soft violation, own narrow signature).
+		soft = "plan-overlapping-blocks-while-disabled"
+		softMsg = fmt.Sprintf("plan %v contains overlapping blocks although overlapping compaction is disabled", p)
+	}
+	if overlaps > 0 && overlapEnabled {
 		if gaps > 0 {
-			return "", "plan-neither-overlap-group-nor-disjoint", fmt.Sprintf("plan %v is neither one overlap group nor a set of disjoint blocks", p)
+			return "", "plan-neither-overlap-group-nor-disjoint", fmt.Sprintf("plan %v is neither one overlap group nor a set of disjoint blocks", p), soft, softMsg
 		}
-		return "overlap", "", ""
+		return "overlap", "", "", soft, softMsg
 	}
 	// (b)
 	for _, b := range p {
 		if b.extra == c08Failed {
-			return "", "plan-includes-failed-block", fmt.Sprintf("plan %v contains a block marked as failed", p)
+			return "", "plan-includes-failed-block", fmt.Sprintf("plan %v contains a block marked as failed", p), soft, softMsg
 		}
 	}
 	// newest of the class: some block of the class with the maximal MinTime must be outside the plan
@@ -211,7 +219,7 @@ func c08CheckPlan(overlapEnabled bool, blocks []c08Block, plan []string) (shape,
 		}
 	}
 	if !excluded {
-		return "", "plan-includes-newest-block", fmt.Sprintf("plan %v contains the newest block of its class (blocks %v)", p, blocks)
+		return "", "plan-includes-newest-block", fmt.Sprintf("plan %v contains the newest block of its class (blocks %v)", p, blocks), soft, softMsg
 	}
 	lo := p[0].span.min
 	within := false
@@ -225,9 +233,9 @@ func c08CheckPlan(overlapEnabled bool, blocks []c08Block, plan []string) (shape,
 		}
 	}
 	if !within {
-		return "", "plan-spans-more-than-one-range", fmt.Sprintf("plan %v [%d,%d) does not lie inside one aligned range of %v", p, lo, hi, c08Ranges)
+		return "", "plan-spans-more-than-one-range", fmt.Sprintf("plan %v [%d,%d) does not lie inside one aligned range of %v", p, lo, hi, c08Ranges), soft, softMsg
 	}
-	return "range", "", ""
+	return "range", "", "", soft, softMsg
 }
 
 func c08CheckMerged(p []c08Block, m *BlockMeta) (sig, msg string) {
@@ -278,7 +286,11 @@ func c08Run(r *vx.Run, c *LeveledCompactor, cs c08Case) (traj string, firstShape
 			fail("plan-error", err.Error(), step)
 			return tb.String(), firstShape
 		}
-		shape, sig, msg := c08CheckPlan(cs.Overlaps, blocks, plan)
+		shape, sig, msg, soft, softMsg := c08CheckPlanSoft(cs.Overlaps, blocks, plan)
+		if soft != "" {
+			fail(soft, softMsg, step)
+			shape += "(overlapping)"
+		}
 		if sig != "" {
 			fail(sig, msg, step)
 			return tb.String(), firstShape
@@ -333,7 +345,7 @@ func c08Run(r *vx.Run, c *LeveledCompactor, cs c08Case) (traj string, firstShape
 // ---------------------------------------------------------------------------------------------
 
 // per subset of spans: classes^n x (1 + 3n) extras x 3 ooo modes x 2 overlap settings
-func c08CasesPerSubset(n int) int64 {
+func c08CasesPerSubset(n, oooModes int) int64 {
 	if n == 0 {
 		return 2
 	}
@@ -341,10 +353,11 @@ func c08CasesPerSubset(n int) int64 {
 	for i := 0; i < n; i++ {
 		c *= 3
 	}
-	return c * int64(1+3*n) * 3 * 2
+	return c * int64(1+3*n) * int64(oooModes) * 2
 }
 
-func c08CaseAt(spans []int, i int64) c08Case {
+// oooModes == 1: only the alternating pattern.
+func c08CaseAt(spans []int, i int64, oooModes int) c08Case {
 	n := len(spans)
 	cs := c08Case{Spans: append([]int{}, spans...), Classes: make([]int, n), ExtraAt: -1}
 	cs.Overlaps = i%2 == 0
@@ -352,8 +365,11 @@ func c08CaseAt(spans []int, i int64) c08Case {
 	if n == 0 {
 		return cs
 	}
-	cs.OOOMode = int(i % 3)
-	i /= 3
+	cs.OOOMode = 2
+	if oooModes == 3 {
+		cs.OOOMode = int(i % 3)
+		i /= 3
+	}
 	e := int(i % int64(1+3*n))
 	i /= int64(1 + 3*n)
 	if e > 0 {
@@ -451,21 +467,28 @@ func TestVerifC08(t *testing.T) {
 		subsets = append(subsets, append([]int{}, idx...))
 		return true
 	})
+	// all three out-of-order patterns below the maximal size, the alternating one at the maximal size
+	modes := func(n int) int {
+		if n == maxN {
+			return 1
+		}
+		return 3
+	}
 	// flat index space: prefix sums
 	offs := make([]int64, len(subsets)+1)
 	for i, s := range subsets {
-		offs[i+1] = offs[i] + c08CasesPerSubset(len(s))
+		offs[i+1] = offs[i] + c08CasesPerSubset(len(s), modes(len(s)))
 	}
 	total := offs[len(subsets)]
 	var n, steps atomic.Int64
 	var shapes [4]atomic.Int64
 	r.ParallelN(total, func(i int64) {
 		si := sort.Search(len(subsets), func(k int) bool { return offs[k+1] > i })
-		cs := c08CaseAt(subsets[si], i-offs[si])
+		cs := c08CaseAt(subsets[si], i-offs[si], modes(len(subsets[si])))
 		traj, first := c08Run(r, pick(cs), cs)
 		k := n.Add(1)
 		steps.Add(int64(strings.Count(traj, " ")))
-		switch first {
+		switch strings.TrimSuffix(first, "(overlapping)") {
 		case "overlap":
 			shapes[0].Add(1)
 		case "range":
@@ -488,7 +511,7 @@ func TestVerifC08(t *testing.T) {
 	r.Set("first_plan_shapes", map[string]int64{"overlap_group": shapes[0].Load(), "range_group": shapes[1].Load(), "tombstone_rewrite": shapes[2].Load(), "empty": shapes[3].Load()})
 	r.Set("max_blocks", maxN)
 	r.Set("time_ranges", len(c08Spans))
-	r.Set("rule", fmt.Sprintf("every subset of <=%d of %d block time ranges x class per block (3^n) x at most one block failed / 6%% tombstones / fully deleted (1+3n) x out-of-order hint pattern (3) x overlapping compaction on/off, ranges %v; each case is iterated plan -> CompactBlockMetas -> replace until the plan is empty, the oracle is applied to every plan and every merged meta on the way. distinct_nontrivial = distinct cases whose first plan is non-empty; distinct_outcomes = distinct trajectories of plan shapes.", maxN, len(c08Spans), c08Ranges))
+	r.Set("rule", fmt.Sprintf("every subset of <=%d of %d block time ranges x class per block (3^n) x at most one block failed / 6%% tombstones / fully deleted (1+3n) x out-of-order hint pattern (none/all/alternating; only alternating at the maximal size) x overlapping compaction on/off, ranges %v; each case is iterated plan -> CompactBlockMetas -> replace until the plan is empty, the oracle is applied to every plan and every merged meta on the way. distinct_nontrivial = distinct cases whose first plan is non-empty; distinct_outcomes = distinct trajectories of plan shapes.", maxN, len(c08Spans), c08Ranges))
 	r.Assume("metadata-level compaction model: planned blocks are replaced by one block with CompactBlockMetas' time range and hints, no tombstones; a compaction of only fully deleted blocks yields no block")
 	r.Assume("'newest block' is read per class (the planner treats each class as its own sequence); 'mutually overlapping' is read as one overlap group (every block starts before the end of an earlier one)")
 	for i, name := range []string{"overlap", "range", "tombstones", "empty"} {
